@@ -377,10 +377,19 @@ func Build(seed uint64, flags int) *Result {
 	b.put("word/_rels/document.xml."+relsExt, relsXML(b.docRel))
 
 	// ---- package level
-	pkgRels := []rel{{"rId1", nsR + "/officeDocument", "word/document.xml", ""}}
+	// the ids of the package-level relationships follow the same conventions as those of the main part: dense from
+	// rId1 (most producers), with gaps or not starting at rId1 (parts were removed, other producers), or not rId<n> at all
+	rootIDs := []string{"rId1", "rId2", "rId3"}
+	switch {
+	case flags&FOddIDs != 0:
+		rootIDs = []string{"R1", "Rcore", "Rapp"}
+	case flags&FSparseIDs != 0:
+		rootIDs = [][]string{{"rId2", "rId4", "rId5"}, {"rId1", "rId3", "rId5"}, {"rId3", "rId1", "rId2"}, {"rId7", "rId8", "rId9"}}[b.r.Intn(4)]
+	}
+	pkgRels := []rel{{rootIDs[0], nsR + "/officeDocument", "word/document.xml", ""}}
 	if flags&FDocProps != 0 {
-		pkgRels = append(pkgRels, rel{"rId2", "http://schemas.openxmlformats.org/package/2006/relationships/metadata/core-properties", "docProps/core.xml", ""},
-			rel{"rId3", nsR + "/extended-properties", "docProps/app.xml", ""})
+		pkgRels = append(pkgRels, rel{rootIDs[1], "http://schemas.openxmlformats.org/package/2006/relationships/metadata/core-properties", "docProps/core.xml", ""},
+			rel{rootIDs[2], nsR + "/extended-properties", "docProps/app.xml", ""})
 		b.put("docProps/core.xml", `<?xml version="1.0" encoding="UTF-8"?><cp:coreProperties xmlns:cp="http://schemas.openxmlformats.org/package/2006/metadata/core-properties" xmlns:dc="http://purl.org/dc/elements/1.1/" xmlns:dcterms="http://purl.org/dc/terms/" xmlns:xsi="http://www.w3.org/2001/XMLSchema-instance"><dc:title>Foreign</dc:title><dc:creator>Other App</dc:creator><dcterms:created xsi:type="dcterms:W3CDTF">2020-01-02T03:04:05Z</dcterms:created></cp:coreProperties>`)
 		b.put("docProps/app.xml", `<?xml version="1.0" encoding="UTF-8"?><Properties xmlns="http://schemas.openxmlformats.org/officeDocument/2006/extended-properties"><Application>Other App</Application><Pages>3</Pages></Properties>`)
 		b.ovr["/docProps/core.xml"] = "application/vnd.openxmlformats-package.core-properties+xml"
